@@ -7,7 +7,12 @@ patch=$(readlink -f "$1"); prop=$2; tier=${3:-quick}
 name=$(basename "$patch" .patch)
 wt=/tmp/mut-wt-$name-$$; out=/tmp/mut-out-$name-$$
 export GOFLAGS=-mod=mod GOPROXY=off GOSUMDB=off GOTOOLCHAIN=local
-git -C /repo worktree add -q --detach "$wt" HEAD || exit 9
+# (several of these may start at once: `git worktree add` is not safe against itself, so retry)
+for try in 1 2 3 4 5; do
+  git -C /repo worktree add -q --detach "$wt" HEAD 2>/dev/null && break
+  [ $try = 5 ] && { echo "$name: WORKTREE-ADD-FAILED"; exit 9; }
+  sleep $((RANDOM % 3 + 1))
+done
 cleanup() { git -C /repo worktree remove --force "$wt" 2>/dev/null; rm -rf "$out" "$wt"; }
 trap cleanup EXIT
 ( cd "$wt" && git apply "$patch" ) || { echo "$name: PATCH-DOES-NOT-APPLY"; exit 9; }
